@@ -572,6 +572,10 @@ def pyscf_cases(ck):
         {"name": "H3-ROHF-doublet", "xyz": [("H", (0., 0., 0.)), ("H", (0., 0., 0.9)), ("H", (0.3, 0., 1.9))], "q": 0, "spin": 1, "uhf": False, "frozen": None},
         {"name": "H4-RHF-frozen[0,3]", "xyz": chain(4, 0.85), "q": 0, "spin": 0, "uhf": False, "frozen": [0, 3]},
         {"name": "H4+-UHF-frozen[[0],[]]", "xyz": chain(4, 0.9), "q": 1, "spin": 1, "uhf": True, "frozen": [[0], []]},
+        {"name": "H4-RHF-bent", "xyz": [("H", (0., 0., 0.)), ("H", (0., 0., 0.9)), ("H", (0.4, 0., 1.8)), ("H", (0.9, 0.2, 2.6))], "q": 0, "spin": 0,
+         "uhf": False, "frozen": None},
+        {"name": "H4+-ROHF-doublet-bent-frozen[3]", "xyz": [("H", (0., 0., 0.)), ("H", (0., 0., 0.9)), ("H", (0.4, 0., 1.8)), ("H", (0.9, 0.2, 2.6))], "q": 1,
+         "spin": 1, "uhf": False, "frozen": [3]},
         # high-spin restricted open shells with frozen orbitals (FCISolver then goes through its CAS path)
         {"name": "H4-ROHF-triplet-frozen[3]", "xyz": chain(4, 0.9), "q": 0, "spin": 2, "uhf": False, "frozen": [3]},
         {"name": "H4-ROHF-triplet-frozen[0]", "xyz": chain(4, 1.0), "q": 0, "spin": 2, "uhf": False, "frozen": [0]},
@@ -865,6 +869,14 @@ def run_pyscf_support(ck):
                                  % (pc["name"], er, e0, np.trace(np.array(d1)), na + nb), {"kind": "pyscf", "case": pcj, "what": "sector"}, found_input=True)
             except Exception as ex:
                 ck.notes.setdefault("pyscf_fci_errors", []).append("%s: %r" % (pc["name"], ex))
+        if not pc["uhf"]:
+            try:
+                for what, msg in explicit_mo_coeff_oracle(ck, mol, e0):
+                    ck.violation("C04/pyscf/mo_coeff-argument/%s/%s" % (what, ref), "%s: %s" % (pc["name"], msg),
+                                 {"kind": "pyscf", "case": pcj, "what": "mo_coeff-argument"}, found_input=True)
+            except Exception as ex:
+                ck.violation("C04/pyscf/mo_coeff-argument/raises/%s/%s" % (type(ex).__name__, ref), "%s: passing rotated mo_coeff explicitly raised %r" % (pc["name"], ex),
+                             {"kind": "pyscf", "case": pcj, "what": "mo_coeff-argument"}, found_input=True)
         if ck.tier != "thorough":
             continue
         # rotation among the active orbitals leaves the sector ground energy unchanged
@@ -875,6 +887,106 @@ def run_pyscf_support(ck):
                              "%s: %s" % (pc["name"], rot_ok), {"kind": "pyscf", "case": pcj}, found_input=True)
         except Exception as ex:
             ck.notes.setdefault("pyscf_rotation_errors", []).append("%s: %r" % (pc["name"], ex))
+
+
+def _random_orthogonal(rng, n):
+    a = np.array([[rng.uniform(-1, 1) for _ in range(n)] for _ in range(n)])
+    q, _ = np.linalg.qr(a)
+    return q
+
+
+def _sector_energy_of_integrals(core, h, g, na, nb, on=(), off=()):
+    """lowest eigenvalue in the (na, nb) sector of the operator openfermion assembles from spatial integrals (restricted),
+    optionally with fixed occupied / empty spin-orbitals"""
+    import openfermion as of
+    from openfermion.chem.molecular_data import spinorb_from_spatial
+    one, two = spinorb_from_spatial(np.asarray(h), np.asarray(g))
+    op = of.get_fermion_operator(of.InteractionOperator(float(core), one, 0.5 * two))
+    nq = 2 * np.asarray(h).shape[0]
+    mat = of.get_sparse_operator(op, n_qubits=nq).toarray()
+    return _lowest_in(mat, nq, lambda bits: sum(bits[0::2]) == na and sum(bits[1::2]) == nb
+                      and all(bits[q] for q in on) and not any(bits[q] for q in off))
+
+
+def explicit_mo_coeff_oracle(ck, mol, e0):
+    """Rotated molecular-orbital coefficients handed over EXPLICITLY through the documented `mo_coeff` argument of
+    _get_fermionic_hamiltonian / get_active_space_integrals / get_full_space_integrals / get_integrals (restricted references):
+      - any orthogonal rotation among the active orbitals leaves the lowest (n_alpha, n_beta)-sector eigenvalue unchanged;
+      - a rotation inside the doubly occupied, the singly occupied and the virtual active blocks also leaves <ref|H|ref> = mean-field energy;
+      - for the full-space integrals any orthogonal rotation of ALL orbitals that keeps the frozen ones fixed leaves the sector eigenvalue of the
+        Hamiltonian restricted to the frozen pattern unchanged.
+    Returns a list of (what, message)."""
+    out = []
+    C = np.array(mol.mo_coeff, dtype=float)
+    occ = np.asarray(mol.mo_occ)
+    act = list(mol.active_mos)
+    if len(act) < 2:
+        return out
+    (na, nb), (fna, fnb) = target_sector(mol)
+    nq = mol.n_active_sos
+    # (a) general rotation among the active orbitals
+    Ca = C.copy()
+    Ca[:, act] = C[:, act] @ _random_orthogonal(ck.rng, len(act))
+    # (b) rotation inside the blocks of equal occupation of the active space
+    Cb = C.copy()
+    for val in (2, 1, 0):
+        blk = [o for o in act if int(round(occ[o])) == val]
+        if len(blk) >= 2:
+            Cb[:, blk] = C[:, blk] @ _random_orthogonal(ck.rng, len(blk))
+    D = [2 * p for p, o in enumerate(act) if occ[o] >= 1] + [2 * p + 1 for p, o in enumerate(act) if occ[o] == 2]
+    for label, Cr, check_ref in (("active-rotation", Ca, False), ("block-rotation", Cb, True)):
+        # _get_fermionic_hamiltonian(mo_coeff)
+        fh = mol._get_fermionic_hamiltonian(Cr)
+        e1 = _lowest_in(_jw_matrix(fh, nq), nq, lambda bits: sum(bits[0::2]) == na and sum(bits[1::2]) == nb)
+        if abs(e1 - e0) > 1e-7:
+            out.append(("_get_fermionic_hamiltonian/" + label, "_get_fermionic_hamiltonian(mo_coeff=rotated): lowest eigenvalue in sector (%d,%d) %.9f, "
+                        "with the molecule's own orbitals %.9f" % (na, nb, e1, e0)))
+        if check_ref:
+            er = float(sum(float(np.real(v)) * CCm_det(k, D) for k, v in fh.terms.items()))
+            if abs(er - mol.mf_energy) > 1e-7:
+                out.append(("_get_fermionic_hamiltonian/reference/" + label, "_get_fermionic_hamiltonian(mo_coeff=rotated within occupation blocks): "
+                            "<ref|H|ref> = %.9f, mean-field energy %.9f" % (er, mol.mf_energy)))
+        # get_active_space_integrals(mo_coeff) and get_integrals(mo_coeff, True)
+        for fname, call in (("get_active_space_integrals", lambda: mol.get_active_space_integrals(Cr)),
+                            ("get_integrals", lambda: mol.get_integrals(Cr, True))):
+            core, h1, g1 = call()
+            e2 = _sector_energy_of_integrals(core, h1, g1, na, nb)
+            if abs(e2 - e0) > 1e-7:
+                out.append((fname + "/" + label, "%s(mo_coeff=rotated): lowest eigenvalue in sector (%d,%d) %.9f, with the molecule's own orbitals %.9f"
+                            % (fname, na, nb, e2, e0)))
+    # (c) full-space integrals with a rotation of all non-frozen orbitals... = active rotation embedded, plus (no frozen orbitals) a general one
+    if mol.n_sos <= 8:
+        frozen_o, frozen_v = list(mol.frozen_occupied), list(mol.frozen_virtual)
+        on = [q for i in frozen_o for q in (2 * i, 2 * i + 1)]
+        off = [q for i in frozen_v for q in (2 * i, 2 * i + 1)]
+        core, hf, gf = mol.get_full_space_integrals(Ca)
+        e3 = _sector_energy_of_integrals(core, hf, gf, fna, fnb, on, off)
+        if abs(e3 - e0) > 1e-7:
+            out.append(("get_full_space_integrals/active-rotation", "get_full_space_integrals(mo_coeff=rotated), restricted to the frozen pattern: lowest eigenvalue "
+                        "in sector (%d,%d) %.9f, active-space value with the molecule's own orbitals %.9f" % (fna, fnb, e3, e0)))
+        Cg = C @ _random_orthogonal(ck.rng, C.shape[1])
+        core, hg, gg = mol.get_full_space_integrals(Cg)
+        core0, h0, g0 = mol.get_full_space_integrals()
+        e4, e5 = _sector_energy_of_integrals(core, hg, gg, fna, fnb), _sector_energy_of_integrals(core0, h0, g0, fna, fnb)
+        if abs(e4 - e5) > 1e-7:
+            out.append(("get_full_space_integrals/general-rotation", "get_full_space_integrals(mo_coeff=general rotation of all orbitals): full-space lowest eigenvalue "
+                        "in sector (%d,%d) %.9f, with the molecule's own orbitals %.9f" % (fna, fnb, e4, e5)))
+    return out
+
+
+def CCm_det(key, D):
+    """contribution factor of one fermionic term to <D|.|D> (see chem_common.det_expectation)"""
+    Ds = set(D)
+    if len(key) == 0:
+        return 1
+    if len(key) == 2:
+        (p, _), (q, _) = key
+        return 1 if (p == q and p in Ds) else 0
+    if len(key) == 4:
+        (p, _), (q, _), (r, _), (s_, _) = key
+        if p in Ds and q in Ds and p != q:
+            return (1 if (p == s_ and q == r) else 0) - (1 if (p == r and q == s_) else 0)
+    return 0
 
 
 def rotation_invariance(ck, mol, e0):
@@ -1000,6 +1112,15 @@ def replay(data):
         mol = SecondQuantizedMolecule([(a, tuple(x)) for a, x in pc["xyz"]], pc["q"], pc["spin"], basis="sto-3g",
                                       frozen_orbitals=pc["frozen"], uhf=pc["uhf"])
         print("mf_energy", mol.mf_energy)
+        if r.get("what") == "mo_coeff-argument":
+            import random
+            class _K:  # minimal stand-in for the check object: only the PRNG is used
+                rng = random.Random(0)
+            e0 = sector_ground_energy(mol, both=True)[1]
+            res = explicit_mo_coeff_oracle(_K, mol, e0)
+            for what, msg in res:
+                print("FINDING", what, msg)
+            return 1 if res else 0
         if r.get("what") == "sector":
             e_all, e0, pad = sector_ground_energy(mol, both=True)
             (na, nb), _ = target_sector(mol)
